@@ -13,14 +13,20 @@ def rangeVals (lo : Int) (size : Nat) : List Val :=
   (List.range size).map fun (i : Nat) => Val.int .int (wrap .int (lo + (i : Int)))
 
 /-- `(*constRange).Exit` -/
-def constRangeRule : Rule := fun n st =>
+def constRangeRule (fl : Flags) : Rule := fun n st =>
   match n with
   | .binary _ op (.int _ lo) (.int _ hi) =>
     if op == ".." then
       let size := wrap .int (hi - lo + 1)
-      if size < 1 then (patch n (.const {} (.arr (.num .int) [])), st)
-      else if size > constRangeMax then (n, st)
-      else (patch n (.const {} (.arr (.num .int) (rangeVals lo size.toNat))), st)
+      if fl.constRangeNoOverflow then
+        if hi < lo then (patch n (.const {} (.arr (.num .int) [])), st)
+        else if size < 1 || size > constRangeMax then (n, st)
+        else (patch n (.const {} (.arr (.num .int) (rangeVals lo size.toNat))), st)
+      else
+        -- as written: `size := max - min + 1` in Go's int; a size that wraps below 1 yields the empty constant
+        if size < 1 then (patch n (.const {} (.arr (.num .int) [])), st)
+        else if size > constRangeMax then (n, st)
+        else (patch n (.const {} (.arr (.num .int) (rangeVals lo size.toNat))), st)
     else (n, st)
   | _ => (n, st)
 
